@@ -629,9 +629,9 @@ func (x *Exec) equal(a, b Value) bool {
 		if at.Render() == bt.Render() {
 			return true
 		}
-		return x.W.Or.Bool("eq:" + at.Render() + "==" + bt.Render())
+		return x.W.Or.Bool(eqKey(at.Render(), bt.Render()))
 	}
-	return x.W.Or.Bool("eq:" + x.str(a) + "==" + x.str(b))
+	return x.W.Or.Bool(eqKey(x.str(a), x.str(b)))
 }
 
 func (x *Exec) text(v Value) *Text {
@@ -699,4 +699,17 @@ func (x *Exec) sprintf(f string, args []Value) *Text {
 	}
 	out.Parts = merged
 	return out
+}
+
+// eqKey names the choice "a equals b" symmetrically, so that eq a b and eq b a are one decision.
+func eqKey(a, b string) string {
+	sa, sb := strings.Contains(a, "Φ"), strings.Contains(b, "Φ")
+	switch {
+	case sa && !sb: // symbol == literal: keep the symbol first
+	case !sa && sb:
+		a, b = b, a
+	case b < a:
+		a, b = b, a
+	}
+	return "eq:" + a + "==" + b
 }
